@@ -1,17 +1,212 @@
 /-
-C10 — property theorems (statements only live here; helper lemmas in NV/C10/Lemmas.lean).
+C10 — property theorems.  Helper lemmas live in NV/C10/Lemmas*.lean; this file has the top-level statements:
+
+  * `model_satisfies_spec` : for ALL callback scripts and ALL command lists the specification oracle `judgeEv`
+    (the same function that judges the traces of the real driver) raises no violation on the history produced by
+    the model of lib/efuns/call_out.c.
+  * `wheelInv_always`, `sweep_catches_up`, ... : the invariants behind it, clause by clause.
 -/
-import NV.C10.Model
-import NV.C10.Spec
+import NV.C10.LemmasSimRun
 
 namespace NV.C10
 
-/-- the wheel size regenerated from the source is a power of two, so `t & (N-1)` is `t % N` -/
-theorem N_pow2 : 2 ^ Nat.log2 N = N := by decide
+theorem init_sim : Sim false World.init := by
+  refine ⟨rfl, rfl, rfl, rfl, ?_, ?_, List.Pairwise.nil, ?_, ?_⟩
+  · intro h hh; cases hh
+  · intro p hp; cases hp
+  · rintro c ⟨s, D, hm⟩; simp [World.init] at hm
+  · intro p hp; cases hp
 
-theorem slotOf_eq_mod (t : Nat) : slotOf t = t % N := by
-  unfold slotOf
-  rw [← N_pow2]
-  exact Nat.and_two_pow_sub_one_eq_mod t (Nat.log2 N)
+/-- in a quiet wheel every pending call_out is strictly later than `call_out_time` -/
+theorem quiet_due_gt {w : World} (hw : WheelInv w) (hq : Quiet w) {c : Call} (hc : InWheel w c) :
+    (w.cot : Int) < c.due := by
+  obtain ⟨s, D, hm⟩ := hc
+  have e := hw.ent s _ hm
+  rw [e.due]
+  exact (dueOf_gt_iff s w.cot D).2 (hq s _ hm)
+
+theorem tickend_sim {w : World} (hw : WheelInv w) (hq : Quiet w) (hcn : w.cot = w.now) (hs : Sim true w) :
+    Sim false (emit w (.tickend (vnow w))) := by
+  refine Sim.emit (w := w) rfl ?_
+  have hmiss : (jstate w.out).pend.filter (fun e => decide (e.due ≤ vnow w) && !isDeadJ (jstate w.out) e.owner) = [] := by
+    apply List.filter_eq_nil_iff.2
+    intro p hp
+    rcases hs.pendWheel p hp with ⟨c, hc1, hc2⟩ | hx
+    · have hlt : (w.now : Int) < c.due := by
+        have := quiet_due_gt hw hq hc1; rw [hcn] at this; exact this
+      have hd : ¬ p.due ≤ vnow w := by
+        rw [← hc2]; simp only [toPend, vnow]; omega
+      simp [hd]
+    · have : isDeadJ (jstate w.out) p.owner = true := by rw [isDeadJ_eq hs]; exact hx.1
+      simp [this]
+  have hj : judgeStep (jstate w.out) (.tickend (vnow w)) =
+      { jstate w.out with inTick := false, pend := (jstate w.out).pend.filter (fun e => decide (e.due > vnow w)) } := by
+    simp only [judgeStep, hmiss, List.foldl_nil]
+  rw [hj]
+  refine ⟨hs.bad, hs.dead, hs.handles, rfl, hs.allLt, ?_, ?_, ?_, ?_⟩
+  · intro p hp; exact hs.pendLt p (List.mem_filter.1 hp).1
+  · exact List.Pairwise.filter _ hs.pendSorted
+  · intro c hc
+    refine List.mem_filter.2 ⟨hs.wheelPend c hc, ?_⟩
+    have hlt : (w.now : Int) < c.due := by
+      have := quiet_due_gt hw hq hc; rw [hcn] at this; exact this
+    have : (toPend c).due > vnow w := by simp only [toPend, vnow]; omega
+    exact decide_eq_true this
+  · intro p hp
+    exact hs.pendWheel p (List.mem_filter.1 hp).1
+
+theorem stepCmd_sim (sc : Scripts) {w : World} (hr : Rest w) (hs : Sim false w) (c : Cmd) :
+    Sim false (stepCmd sc w c) := by
+  cases c with
+  | adv dt => exact SimJ.congr (w := w) hs rfl rfl rfl rfl rfl
+  | sweep =>
+    have h1 : Sim true (emit w (.tickbegin (vnow w))) := by
+      refine Sim.emit (w := w) rfl ?_
+      have hj : judgeStep (jstate w.out) (.tickbegin (vnow w)) = { jstate w.out with inTick := true } := by
+        simp only [judgeStep, hs.inTick, Bool.false_eq_true, if_false]
+      rw [hj]
+      exact ⟨hs.bad, hs.dead, hs.handles, rfl, hs.allLt, hs.pendLt, hs.pendSorted, hs.wheelPend, hs.pendWheel⟩
+    have hr1 : Rest (emit w (.tickbegin (vnow w))) := hr.congr rfl rfl rfl rfl
+    have h2 := sweep_sim sc hr1.1 hr1.2 h1
+    obtain ⟨a, b, c, d, _⟩ := sweep_ok sc hr1.1 hr1.2
+    exact tickend_sim a b (by rw [c, d]) h2
+  | setScript self =>
+    show Sim false (if isDead w self then emit w (.setScriptDestructed self) else w)
+    split
+    · exact Sim.emit (w := w) rfl hs
+    · exact hs
+  | op self op =>
+    show Sim false (if isDead w self then emit w (.opDestructed self)
+      else if (runOps w self [op]).2 then emit (runOps w self [op]).1 (.opErr self) else (runOps w self [op]).1)
+    split
+    · exact Sim.emit (w := w) rfl hs
+    · rename_i hd
+      have := runOps_sim hr.1 hs self [op] (by simpa using hd)
+      split
+      · exact Sim.emit (w := (runOps w self [op]).1) rfl this
+      · exact this
+
+theorem runCmds_sim (sc : Scripts) {w : World} (hr : Rest w) (hs : Sim false w) (cs : List Cmd) :
+    Sim false (runCmds sc w cs) := by
+  unfold runCmds
+  induction cs generalizing w with
+  | nil => exact hs
+  | cons c cs ih => exact ih (stepCmd_rest sc hr c) (stepCmd_sim sc hr hs c)
+
+/-- **C10, top theorem.**  For every callback oracle `sc` (what each call_out callback does: schedule, remove,
+    find, destruct, raise an error, ...) and every list of top-level commands `cmds` (operations, clock advances of
+    any size, sweeps at any spacing incl. backlog), the history of observable events produced by the model of
+    lib/efuns/call_out.c is accepted by the specification oracle `judgeEv`: every scheduled call_out of a live
+    object that is not removed fires exactly once, with its argument, not before its time and no later than the
+    first `call_out()` at or after it; find/remove (by handle and by name) answer exactly `due - now`; a removed
+    call_out never fires; call_outs of destructed objects are dropped; an error in a callback loses/repeats
+    nothing; handles are never reused; `call_out_info()` lists exactly the pending call_outs of live objects. -/
+theorem model_satisfies_spec (sc : Scripts) (cmds : List Cmd) :
+    judgeEv (events (runCmds sc World.init cmds)) = [] := by
+  rw [judgeEv_events, (runCmds_sim sc init_rest init_sim cmds).bad]
+  rfl
+
+/-- **clause 2c**: the wheel invariant holds after every history, and between commands nothing pending is due -/
+theorem wheelInv_always (sc : Scripts) (cmds : List Cmd) :
+    WheelInv (runCmds sc World.init cmds) ∧ Quiet (runCmds sc World.init cmds) :=
+  runCmds_rest sc init_rest cmds
+
+/-- **clause 2d**: after `call_out()` the sweep has caught up, `call_out_time = current_time` (so no pending
+    entry is overdue: all of them are strictly later, by `Quiet`) -/
+theorem sweep_catches_up (sc : Scripts) (cmds : List Cmd) :
+    (sweep sc (runCmds sc World.init cmds)).cot = (runCmds sc World.init cmds).now ∧
+      Quiet (sweep sc (runCmds sc World.init cmds)) ∧ WheelInv (sweep sc (runCmds sc World.init cmds)) := by
+  have h := runCmds_rest sc init_rest cmds
+  obtain ⟨a, b, c, _, _⟩ := sweep_ok sc h.1 h.2
+  exact ⟨c, b, a⟩
+
+/-- **time_left_exact**: in every reachable state, for the entry at cumulative rotation `D` of slot `s`,
+    `time_left(s, D)` is the entry's own second minus `current_time` -/
+theorem time_left_exact (sc : Scripts) (cmds : List Cmd) (s : Nat) (p : Int × Call)
+    (hp : p ∈ cum 0 ((runCmds sc World.init cmds).slots s)) :
+    timeLeft (runCmds sc World.init cmds) s p.1 = p.2.due - (runCmds sc World.init cmds).now := by
+  have h := (runCmds_rest sc init_rest cmds).1
+  have e := h.ent s p hp
+  rw [timeLeft_eq _ s p.1 e.slot, ← e.due]
+
+/-- **handle_unique**: two different pending call_outs never carry the same handle -/
+theorem handle_unique (sc : Scripts) (cmds : List Cmd) (c₁ c₂ : Call)
+    (h₁ : InWheel (runCmds sc World.init cmds) c₁) (h₂ : InWheel (runCmds sc World.init cmds) c₂)
+    (hh : c₁.handle = c₂.handle) : c₁ = c₂ := by
+  have hw := (runCmds_rest sc init_rest cmds).1
+  have hs := runCmds_sim sc init_rest init_sim cmds
+  have := hdesc_handle_inj hs.pendSorted (hs.wheelPend _ h₁) (hs.wheelPend _ h₂) (by simp [toPend, hh])
+  exact toPend_inj hw h₁ h₂ this
+
+theorem nonneg_of_sorted : ∀ (xs : List Entry) (acc : Int) (x : Entry), (cum acc (x :: xs)).Pairwise Before →
+    ∀ y ∈ xs, 0 ≤ y.delta := by
+  intro xs
+  induction xs with
+  | nil => intro _ _ _ y hy; cases hy
+  | cons z zs ih =>
+    intro acc x hsort y hy
+    simp only [cum_cons] at hsort
+    have h2 := List.pairwise_cons.1 hsort
+    simp only [List.mem_cons] at hy
+    rcases hy with rfl | hy
+    · have := before_le (h2.1 (acc + x.delta + y.delta, y.c) (by simp))
+      simp only [] at this; omega
+    · exact ih (acc + x.delta) z (by simpa using h2.2) y hy
+
+/-- deltas are what the C code assumes: non-negative after the head, positive at the head outside a visit -/
+theorem deltas_ok (sc : Scripts) (cmds : List Cmd) (s : Nat) (x : Entry) (xs : List Entry)
+    (hl : (runCmds sc World.init cmds).slots s = x :: xs) : 1 ≤ x.delta ∧ ∀ y ∈ xs, 0 ≤ y.delta := by
+  obtain ⟨hw, hq⟩ := runCmds_rest sc init_rest cmds
+  have hsort := hw.sorted s
+  rw [hl] at hsort
+  have hq' := hq s
+  rw [hl] at hq'
+  constructor
+  · have := hq' (0 + x.delta, x.c) (by simp)
+    simp only [] at this; omega
+  · exact nonneg_of_sorted xs 0 x hsort
+
+/-- the model keeps handles in `Nat`; the C code returns them as `int`.  **Explicit side condition** under which
+    the two agree: fewer than 2^31 / N call_outs have been created so far (`unique` counts them).  Then every pending
+    handle fits a C `int`.  (Beyond that bound `tm += CALLOUT_CYCLE_SIZE * ++unique` overflows; not modelled.) -/
+theorem handles_fit_int (sc : Scripts) (cmds : List Cmd) (hb : (runCmds sc World.init cmds).unique < 2 ^ 31 / N)
+    (c : Call) (hc : InWheel (runCmds sc World.init cmds) c) : c.handle < 2 ^ 31 := by
+  have hw := (runCmds_rest sc init_rest cmds).1
+  obtain ⟨s, D, hm⟩ := hc
+  have e := hw.ent s _ hm
+  have h1 := e.handle
+  have h2 := e.serial
+  have h3 := e.slot
+  simp only [] at h1 h2
+  generalize (runCmds sc World.init cmds).unique = u at *
+  wheel_omega
+
+/-! ### non-vacuity -/
+
+/-- a script table used by the examples: the callback of (o1, "a") schedules "b" into the slot being swept,
+    removes "c" and raises an error -/
+def exScripts : Scripts := fun o tag =>
+  if o = 1 ∧ tag = "a" then [.co 1 32 "b", .rmh "c", .fnm 2, .info, .err] else []
+
+def exCmds : List Cmd :=
+  [.op 1 (.co 0 1 "a"), .op 1 (.co 2 5 "c"), .op 2 (.co 2 70 "d"), .op 2 (.dest 2), .adv 3, .sweep,
+   .op 1 (.fh "b"), .adv 40, .sweep, .adv 100, .sweep]
+
+/-- the example history is non-trivial: 2 fires (a, b), a removal from inside a callback, an error,
+    a destructed owner's entry dropped -/
+example : (events (runCmds exScripts World.init exCmds)).length = 18 := by decide
+
+example : (events (runCmds exScripts World.init exCmds)).filter (fun e => match e with | .fire .. => true | _ => false)
+    = [.fire 3 1 0 "a", .fire 43 1 1 "b"] := by decide
+
+/-- the side condition of `handles_fit_int` is satisfiable on the non-trivial example history -/
+example : (runCmds exScripts World.init exCmds).unique < 2 ^ 31 / N := by decide
+
+/-- the oracle is not vacuous: it rejects a late fire, a repeated fire, a wrong answer, a missed call_out -/
+example : judgeEv [.co 0 1 0 5 "a" 37, .tickbegin 9, .fire 9 1 0 "a", .fire 9 1 0 "a", .tickend 9] ≠ [] := by decide
+example : judgeEv [.co 0 1 0 5 "a" 37, .tickbegin 4, .fire 4 1 0 "a", .tickend 4] ≠ [] := by decide
+example : judgeEv [.co 0 1 0 5 "a" 37, .fh 1 1 "a" 5] ≠ [] := by decide
+example : judgeEv [.co 0 1 0 5 "a" 37, .tickbegin 5, .tickend 5] ≠ [] := by decide
+example : judgeEv [.co 0 1 0 5 "a" 37, .rmh 2 1 "a" 3, .tickbegin 5, .fire 5 1 0 "a", .tickend 5] ≠ [] := by decide
 
 end NV.C10
